@@ -568,7 +568,7 @@ class Exec:
                 return r
             raise OutOfSubset('call %s(%s)' % (fname, ','.join(a.kind for a in args)))
         fn = self.eval(st, e.func)
-        args, kwargs = self._args(st, e)
+        args, kwargs = self._args(st, e, star=(fn.kind != 'func'))
         if fn.kind == 'func':
             return self.call_func(st, fn, args, kwargs)
         r = self._dispatch('call_value', st, e, fn, args, kwargs)
@@ -576,7 +576,7 @@ class Exec:
             raise OutOfSubset('call of %s value' % fn.kind)
         return r
 
-    def _args(self, st, e):
+    def _args(self, st, e, star=False):
         args = []
         for a in e.args:
             if isinstance(a, ast.Starred):
@@ -592,7 +592,11 @@ class Exec:
         kwargs = {}
         for k in e.keywords:
             if k.arg is None:
-                raise OutOfSubset('**kwargs in call')
+                # value(**mapping) - only in the call of a *value* (star=True: the `call_value` hooks know the key '**'): the mapping is handed over as a whole
+                if not star or '**' in kwargs:
+                    raise OutOfSubset('**kwargs in call')
+                kwargs['**'] = self.eval(st, k.value)
+                continue
             kwargs[k.arg] = self.eval(st, k.value)
         return args, kwargs
 
